@@ -570,7 +570,9 @@ class Pass2(CompilePass):
                         f'{arg.type.name.upper()}',
                         node=arg)
             elif arg_type == 'array':
-                if not arg.type.is_array:
+                # the array itself, not an expression of an array type
+                # such as a parenthesized array
+                if not isinstance(arg, Lvalue) or not arg.type.is_array:
                     raise CompileError(
                         EC.TYPE_MISMATCH,
                         f'Type mismatch; expected an array; got '
